@@ -5,6 +5,7 @@
 package simrt
 
 import (
+	"syscall"
 	"fmt"
 	"hash/fnv"
 	"os"
@@ -35,6 +36,9 @@ type Proc struct {
 	Host        string
 	ClockOffset time.Duration
 	Dead        atomic.Bool
+	// UID of the user the process runs as (0 = root); signalling a process of
+	// another user fails with EPERM unless the sender is root
+	UID int
 	// standby: from SuspendAt (simulated time since the start of the run) the
 	// process is frozen for SuspendFor: its tickers do not advance, its
 	// goroutines are not released at park points, its monotonic clock stands
@@ -846,6 +850,10 @@ func (p *Process) Signal(sig os.Signal) error {
 	s.mu.Unlock()
 	if pr == nil || pr.Dead.Load() {
 		return os.ErrProcessDone
+	}
+	if me := CurProc(); me != nil && me.UID != 0 && me.UID != pr.UID {
+		Probe("signal-eperm")
+		return syscall.EPERM
 	}
 	return nil
 }
